@@ -458,8 +458,15 @@ def record_deep(task):
             rng.shuffle(alts)
             a = rng.randint(6, min(13, (min(tots) - 8) // 2 - 1))
             third = rng.choice([0, 0, 1, 4])
+            # mostly the crossed pattern: one sample has one more read of the first ALT, another one more of the second
+            # (means differ by |1/t - 1/t'| / n: unequal unless the two depths are equal); otherwise independent +0/+1
+            crossed = rng.random() < 0.65
+            k0, k1 = rng.sample(range(nS), 2)
             for k in range(nS):
-                cnt = {alts[0]: a + rng.choice([0, 1]), alts[1]: a + rng.choice([0, 1]), alts[2]: min(third, 2 + k)}
+                if crossed:
+                    cnt = {alts[0]: a + (k == k0), alts[1]: a + (k == k1), alts[2]: min(third, 2 + k)}
+                else:
+                    cnt = {alts[0]: a + rng.choice([0, 1]), alts[1]: a + rng.choice([0, 1]), alts[2]: min(third, 2 + k)}
                 cnt[refs[j]] = tots[k] - sum(cnt.values())
                 col = [b for b, n in cnt.items() for _ in range(n)]
                 rng.shuffle(col)
